@@ -6,6 +6,7 @@ import (
 	"math/rand"
 	"strings"
 	"sync"
+	"sync/atomic"
 	"time"
 
 	"github.com/ulikunitz/xz/lzma"
@@ -312,7 +313,11 @@ func checkC08(a *checkArgs, r *Result) error {
 		go func(cs w2Case) {
 			defer wg.Done()
 			defer func() { <-sem }()
+			before := atomic.LoadInt32(&timeoutsSeen)
 			runW2Case(r, dp, cs)
+			if atomic.LoadInt32(&timeoutsSeen) != before || tooManyTimeouts() {
+				return // the writer stalled: reported above; the model ties would stall as well
+			}
 			if cs.Opsfit == 0 || cs.Opsfit == 93918 {
 				runW2Model(r, dp, cs)
 			}
